@@ -73,6 +73,8 @@ fn lookup(d: &Dialect, name: &str) -> Option<Matchable> {
 }
 
 pub struct Dump {
+    /// nodes whose real `simple()` (first-token hint) never returned: (node id, what it is, watchdog verdict)
+    pub hint_hangs: Vec<(u64, String, String)>,
     pub text: String,
     pub n_nodes: usize,
     pub n_eq_pairs: usize,
@@ -113,6 +115,8 @@ pub fn dump_grammar(dialect_name: &str, cfg: &FluffConfig) -> Dump {
         termlike.extend(e.iter());
     }
     let mut regex_nodes = vec![];
+    // (node id, constructor text, is_optional, cache key, handle): `simple()` is asked afterwards, under a watchdog
+    let mut walked: Vec<(u64, String, Option<bool>, Option<u64>, Matchable)> = vec![];
     while let Some(m) = work.pop() {
         let me = g.ids[&m.verif_ptr()];
         let mut ids = |g: &mut Graph, ms: &[Matchable], work: &mut Vec<Matchable>| -> Vec<u64> { ms.iter().map(|x| g.id(x, work)).collect() };
@@ -196,7 +200,34 @@ pub fn dump_grammar(dialect_name: &str, cfg: &FluffConfig) -> Dump {
             MatchableTraitImpl::BracketedSegmentMatcher(_) => "GBracketSeg".to_string(),
         };
         let opt = catch(|| m.is_optional()).ok();
-        let simple = catch(|| m.simple(&ctx, None)).ok().flatten();
+        let ckey = catch(|| m.cache_key()).ok().map(|x| x as u64);
+        walked.push((me, node, opt, ckey, m.clone()));
+    }
+    // The real `simple()` of every node, on a helper thread under the watchdog of c14.rs: a left-corner
+    // self reference makes `Ref::simple` re-enter its own `OnceLock` and block for ever.  A node whose
+    // hint never returns is reported (the dump then counts as failed) and dumped as "not simple".
+    let _ = &ctx;
+    let mut hint_hangs: Vec<(u64, String, String)> = vec![];
+    let simples: Vec<Option<Option<(ahash::AHashSet<String>, sqruff_lib_core::dialects::syntax::SyntaxSet)>>> = {
+        let d2 = std::sync::Arc::new(d.clone());
+        let ic = std::sync::Arc::new(parser.indentation_config().clone());
+        let hs: std::sync::Arc<Vec<Matchable>> = std::sync::Arc::new(walked.iter().map(|w| w.4.clone()).collect());
+        let f: std::sync::Arc<dyn Fn(usize) -> Option<(ahash::AHashSet<String>, sqruff_lib_core::dialects::syntax::SyntaxSet)> + Send + Sync> = std::sync::Arc::new(move |i| {
+            let cx = ParseContext::new(&d2, &ic);
+            catch(|| hs[i].simple(&cx, None)).ok().flatten()
+        });
+        let (res, hangs) = crate::c14::watched_batch(walked.len(), crate::c14::simple_limit(), 3, f);
+        for (i, h) in hangs {
+            let what = match walked[i].4.verif_inner() {
+                MatchableTraitImpl::Ref(r) => format!("Ref({})", r.verif_reference()),
+                _ => walked[i].1.split_whitespace().next().unwrap_or("?").to_string(),
+            };
+            hint_hangs.push((walked[i].0, what, h.text()));
+        }
+        res
+    };
+    for ((me, node, opt, ckey, _m), simple) in walked.into_iter().zip(simples) {
+        let simple = simple.flatten();
         let simple_g = match simple {
             None => "None".to_string(),
             Some((raws, types)) => {
@@ -207,7 +238,6 @@ pub fn dump_grammar(dialect_name: &str, cfg: &FluffConfig) -> Dump {
                 format!("(Some ({},{},{}))", g_ids(&rs), g_ids(&ts), g_bool(alpha))
             }
         };
-        let ckey = catch(|| m.cache_key()).ok().map(|x| x as u64);
         lines.push((me, format!("({}, mkInfo ({}) {} {} {})", me, node, g_opt(opt.map(g_bool)), simple_g, g_oid(ckey))));
     }
     lines.sort();
@@ -278,7 +308,7 @@ pub fn dump_grammar(dialect_name: &str, cfg: &FluffConfig) -> Dump {
     let dangling_names: Vec<String> = dangling.iter().map(|(_, n)| n.clone()).collect();
     let dn = dialect_name;
     let _ = writeln!(text, "Definition case_t_pem_{dn} : Type := case_t.\nDefinition check_pem_{dn} := check_with g.\nDefinition model_pem_{dn} := run g.");
-    Dump { text, n_nodes: lines.len(), n_eq_pairs: eq_pairs.len(), eq_panics, regex_nodes, dangling: dangling_names, brackets_closed }
+    Dump { hint_hangs, text, n_nodes: lines.len(), n_eq_pairs: eq_pairs.len(), eq_panics, regex_nodes, dangling: dangling_names, brackets_closed }
 }
 
 fn any_d(g: &mut Graph, a: &sqruff_lib_core::parser::grammar::anyof::AnyNumberOf, work: &mut Vec<Matchable>, termlike: &mut BTreeSet<u64>) -> String {
@@ -342,6 +372,11 @@ impl Ctx {
         if !self.cfgs.contains_key(dialect) {
             let cfg = FluffConfig::from_source(&format!("[sqruff]\ndialect = {}\n", dialect), None);
             let dump = dump_grammar(dialect, &cfg);
+            if !dump.hint_hangs.is_empty() {
+                // parsing with this dialect would block in the same OnceLock: stop instead of hanging
+                eprintln!("first-token hint of {} node(s) of dialect {} never returns (e.g. {} {})", dump.hint_hangs.len(), dialect, dump.hint_hangs[0].1, dump.hint_hangs[0].2);
+                std::process::exit(3);
+            }
             self.cfgs.insert(dialect.to_string(), (cfg, dump.regex_nodes));
         }
         &self.cfgs[dialect]
@@ -423,9 +458,21 @@ pub fn main(args: &Args) {
     silence_panics();
     if let Some(d) = args.flag("--dump-grammar") {
         let cfg = FluffConfig::from_source(&format!("[sqruff]\ndialect = {}\n", d), None);
-        let dump = dump_grammar(&d, &cfg);
+        let mut dump = dump_grammar(&d, &cfg);
+        if !dump.hint_hangs.is_empty() {
+            // a verdict of the watchdog is a measurement: believe it only when a second dump, of a
+            // dialect built afresh, blocks as well
+            let cfg2 = FluffConfig::from_source(&format!("[sqruff]\ndialect = {}\n", d), None);
+            dump = dump_grammar(&d, &cfg2);
+        }
         std::fs::write(&args.out, &dump.text).unwrap();
-        eprintln!("{}", json!({"dialect": d, "nodes": dump.n_nodes, "eq_pairs": dump.n_eq_pairs, "eq_panics": dump.eq_panics, "regex_nodes": dump.regex_nodes.len(), "dangling": dump.dangling, "brackets_closed": dump.brackets_closed}));
+        eprintln!("{}", json!({"dialect": d, "nodes": dump.n_nodes, "eq_pairs": dump.n_eq_pairs, "eq_panics": dump.eq_panics, "regex_nodes": dump.regex_nodes.len(), "dangling": dump.dangling, "brackets_closed": dump.brackets_closed,
+            "hint_hangs": dump.hint_hangs.iter().map(|(i, w, h)| json!({"node": i, "is": w, "simple": h})).collect::<Vec<_>>()}));
+        if !dump.hint_hangs.is_empty() {
+            // helper threads are still blocked inside the grammar: leave without joining anything
+            eprintln!("first-token hint of {} node(s) of dialect {} never returns (e.g. {} {})", dump.hint_hangs.len(), d, dump.hint_hangs[0].1, dump.hint_hangs[0].2);
+            std::process::exit(3);
+        }
         return;
     }
     let mut out = Out::new(&args.out);
